@@ -1,9 +1,117 @@
-(* Properties_C60.v — C60: ICAP adaptation delivers exactly the virgin or the adapted message. Statements only. *)
+(* Properties_C60.v — C60: ICAP adaptation delivers exactly the virgin or the adapted message.
+   Statements only; proofs live in IcapProofs.v. The model (IcapModel.v) transcribes ModXact/Xaction/Launcher,
+   Iterator::handleAdaptationError and the two consumers; pipe capacity, backup limit, the order of State::Writing
+   and the status switch of parseIcapHead come from gen/IcapConst_gen.v, regenerated from the source on every run. *)
 Require Import SquidV.Bytes SquidV.IcapModel SquidV.IcapProofs SquidV.gen.IcapConst_gen.
 Local Open Scope N_scope.
 
+(* the status switch of ModXact::parseIcapHead as the source has it now: 100 -> handle100Continue, 200/201 ->
+   validate200Ok + handle200Ok, 204 -> handle204NoContent, 206 -> handle206PartialContent, everything else ->
+   handleUnknownScode *)
 Theorem C60_status_dispatch :
   icap_dispatch 100 = 1 /\ icap_dispatch 200 = 2 /\ icap_dispatch 201 = 2 /\ icap_dispatch 204 = 3 /\ icap_dispatch 206 = 4 /\
   forall s, s <> 100 -> s <> 200 -> s <> 201 -> s <> 204 -> s <> 206 -> icap_dispatch s = 0.
 Proof. exact dispatch_table. Qed.
 Print Assumptions C60_status_dispatch.
+
+(* the model's writing stages are ordered as the enumerators of ModXact::State::Writing (the code compares them) *)
+Theorem C60_writing_enum_order :
+  map w_rank [WInit; WConnect; WHeaders; WPreview; WPaused; WPrime; WAlmostDone; WReallyDone] = [0;1;2;3;4;5;6;7] /\
+  writing_enum_size = 8.
+Proof. exact writing_ranks. Qed.
+Print Assumptions C60_writing_enum_order.
+
+(* icap_output_trichotomy. For EVERY configuration and EVERY sequence of asynchronous calls (connect, write done /
+   failed, virgin data / end / abort, ICAP reply tokens in any segmentation, EOF, I/O stop, timeout, consumer space /
+   abort, initiator abort): the bytes put on the adapted body pipe are
+     - nothing, while no adapted head object exists,
+     - exactly the first s_off bytes of the virgin body, and no adapted payload was ever accepted, when the head is the
+       clone of the virgin head (204 / bypass),
+     - exactly the adapted payload parsed from the ICAP reply (in order, nothing else) when the head was parsed from
+       the ICAP reply;
+   and the head forwarded to the HTTP side is that head object. Never a mixture. *)
+Theorem C60_icap_output_trichotomy : forall c evs,
+  let x := run (init c) evs in
+  match ad_header (ad x) with
+  | None => o_body (out x) = []
+  | Some SrcVirgin => o_body (out x) = takeN (s_off (vs x)) (vp_data (vs x)) /\ ad_in (ad x) = []
+  | Some SrcAdapted => o_body (out x) = ad_in (ad x)
+  end /\
+  (forall s, o_answer (out x) = Some (Fwd s) -> ad_header (ad x) = Some s).
+Proof. exact no_mixture. Qed.
+Print Assumptions C60_icap_output_trichotomy.
+
+(* bypass_only_before_adapted_used: whenever the virgin head has been forwarded (204 or bypass), not a single adapted
+   payload byte was ever accepted from the ICAP server, and what was sent is a prefix of the virgin body ... *)
+Theorem C60_virgin_answer_excludes_adapted_content : forall c evs,
+  let x := run (init c) evs in
+  o_answer (out x) = Some (Fwd SrcVirgin) ->
+  ad_in (ad x) = [] /\ o_body (out x) = takeN (s_off (vs x)) (vp_data (vs x)).
+Proof. exact virgin_answer_pure. Qed.
+Print Assumptions C60_virgin_answer_excludes_adapted_content.
+
+(* ... and whenever the adapted head has been forwarded, no virgin byte was ever echoed *)
+Theorem C60_adapted_answer_excludes_virgin_content : forall c evs,
+  let x := run (init c) evs in
+  o_answer (out x) = Some (Fwd SrcAdapted) ->
+  o_body (out x) = ad_in (ad x) /\ s_off (vs x) = 0.
+Proof. exact adapted_answer_pure. Qed.
+Print Assumptions C60_adapted_answer_excludes_virgin_content.
+
+(* what the HTTP side gets (Launcher::noteXactAbort, Iterator::handleAdaptationError, ClientHttpRequest::
+   handleAdaptationFailure for REQMOD, Client::handleAdaptationAborted for RESPMOD): a message whose body is purely
+   virgin or purely adapted, the untouched virgin request (REQMOD, bypass=1, nothing consumed from its body pipe), or
+   an error - for all configurations and event sequences *)
+Theorem C60_delivery_trichotomy : forall c evs,
+  let x := run (init c) evs in
+  match deliver x with
+  | DMessage SrcVirgin _ body _ => body = takeN (s_off (vs x)) (vp_data (vs x)) /\ ad_in (ad x) = []
+  | DMessage SrcAdapted _ body _ => body = ad_in (ad x) /\ s_off (vs x) = 0
+  | DVirginUntouched =>
+    c_reqmod (cfg x) = true /\ c_bypass (cfg x) = true /\ (vb_expected (cfg x) = false \/ vp_consumed (vs x) = 0) /\
+    (forall s, o_answer (out x) <> Some (Fwd s))
+  | DError => forall s, o_answer (out x) <> Some (Fwd s)
+  end.
+Proof. exact deliver_trichotomy. Qed.
+Print Assumptions C60_delivery_trichotomy.
+
+(* The bypass clause at full strength - "with bypass enabled, an ICAP failure that happens before any adapted content
+   was used yields the virgin message" - is FALSE for the code as it is: bypass=1, RESPMOD, 10-byte body, preview 4,
+   the server answers ICAP 500 after the preview: no adapted head or byte ever existed, the transaction ends with an
+   error answer and the client gets ERR_ICAP_FAILURE (known finding C60-bypass-lost-after-icap-head). *)
+Theorem C60_bypass_on_failure_refuted :
+  exists c evs, c_bypass c = true /\
+    let x := run (init c) evs in
+    ad_header (ad x) <> Some SrcAdapted /\ ad_in (ad x) = [] /\ stopped (job x) = true /\
+    o_answer (out x) = Some AnsError /\ deliver x = DError.
+Proof. exact bypass_refuted. Qed.
+Print Assumptions C60_bypass_on_failure_refuted.
+
+(* The provable part: for EVERY state in which bypass is still enabled, no adapted head object exists, the answer is
+   still owed and the virgin body backup is usable (no body, or virginBodySending active / plannable from offset 0),
+   ANY exception (ModXact::callException) makes the transaction forward the virgin head. *)
+Theorem C60_bypass_on_thrown_failure_partial : forall x,
+  can_bypass (fl x) = true -> retriable (fl x) = false ->
+  ad_header (ad x) = None -> ad_pipe (ad x) = false -> initiator (job x) = true ->
+  (vb_expected (cfg x) = true ->
+     (active (s_st (vs x)) = true \/ (is_disabled (s_st (vs x)) = false /\ s_off (vs x) = 0)) /\ o_end (out x) = None) ->
+  o_answer (out (callException x)) = Some (Fwd SrcVirgin).
+Proof. exact bypass_partial. Qed.
+Print Assumptions C60_bypass_on_thrown_failure_partial.
+
+(* hypotheses are satisfiable / the statements are not vacuous: concrete runs of the model *)
+Example C60_ex_bypass_on_close :
+  let x := run (init (cfg_demo true)) (evs_demo [EvEof]) in deliver x = DMessage SrcVirgin true vbody_demo true.
+Proof. exact bypass_close_example. Qed.
+Example C60_ex_no_bypass_is_error :
+  let x := run (init (cfg_demo false)) (evs_demo [EvEof]) in deliver x = DError.
+Proof. exact nobypass_close_example. Qed.
+Example C60_ex_adapted_intact :
+  let x := run (init (cfg_demo false))
+               (evs_demo [EvRead [TIcapHead 200 HRes true false; THttpHead; TChunk [65;66]]; EvRead [TChunk [67]; TLast]]) in
+  deliver x = DMessage SrcAdapted true [65;66;67] true.
+Proof. exact adapted_example. Qed.
+Example C60_ex_204_in_preview_is_virgin :
+  let x := run (init (cfg_demo false)) (evs_demo [EvRead [TIcapHead 204 HNone false false]]) in
+  deliver x = DMessage SrcVirgin true vbody_demo true.
+Proof. exact preview204_example. Qed.
